@@ -240,6 +240,14 @@ impl<'a> Conv<'a> {
                 let n = self.conv(e);
                 self.node(Ex::Restore(Box::new(n)))
             }
+            #[cfg(feature = "extras")]
+            OptimizedExpr::RepOnce(e) => {
+                let n = self.conv(e);
+                self.node(Ex::RepOnce(Box::new(n)))
+            }
+            // a node tag does not change what is matched
+            #[cfg(feature = "extras")]
+            OptimizedExpr::NodeTag(e, _) => self.conv(e),
             #[allow(unreachable_patterns)]
             _ => {
                 self.errors.push("unsupported optimized expression".to_string());
